@@ -93,6 +93,12 @@ loaders:
 			if o2 := ld.RunStd(name, kind, prefix, f.Data, filepath.Join(ev.Root(), "out", "run", "C05")); !ld.Same(o, o2) {
 				return f.Format + "/reader-type", fmt.Sprintf("%s loader on a %s positioned after %d prefix bytes: %s; from bytes.Reader at offset 0: %s (%s)", name, kind, prefix, o2, o, f.Desc)
 			}
+			// ... and from a source that hands over its last bytes together with io.EOF (as decompressors and
+			// network bodies do), in buffer-sized or smaller pieces
+			s3 := &src.Source{Data: f.Data, FaultAt: -1, DataWithEOF: true, Sizes: [][]int{nil, {4096}, {1000}}[h%3]}
+			if o3 := ld.Run(name, s3); !ld.Same(o, o3) {
+				return f.Format + "/reader-type", fmt.Sprintf("%s loader on a source returning its last bytes with io.EOF (pieces %v): %s; from bytes.Reader: %s (%s)", name, s3.Sizes, o3, o, f.Desc)
+			}
 		}
 		k := f.Format + "/"
 		switch {
